@@ -11,10 +11,10 @@ SPEC = {
                                     "C11_is_equal_symmetric_refuted", "C11_perm_invariant_unconditional_refuted",
                                     "C11_is_equal_reads_position", "C11_position_regression",
                                     "C11_protocol_delivers_exactly_once", "C11_protocol_no_deadlock",
-                                    "C11_protocol_terminates", "C11_protocol_preserves_job_order", "C11_protocol_matches_source", "C11_runs_agree", "C11_runs_agree_exit", "C11_H2_from_job_invariants",
+                                    "C11_protocol_terminates", "C11_protocol_preserves_job_order", "C11_protocol_nonvacuous", "C11_protocol_matches_source", "C11_runs_agree", "C11_runs_agree_exit", "C11_H2_from_job_invariants",
                                     "C11_nonvacuous"]},
     "harness_args": lambda tier: ["C11", "--n", 240, "--perms", 12, "--scen", 26, "--bin", 5] if tier == "quick"
-                                 else ["C11", "--n", 1800, "--perms", 30, "--scen", 160, "--bin", 40, "--race", 1],
+                                 else ["C11", "--n", 1500, "--perms", 30, "--scen", 160, "--bin", 40, "--race", 1],
     "search_args": lambda tier: ["C11", "--n", 600, "--perms", 12, "--scen", 40, "--bin", 6],
     "level": "proof",
     "trusted_base": [
